@@ -339,6 +339,22 @@ func c07PropFilters(twoMatches bool) []carddav.PropFilter {
 						out = append(out, carddav.PropFilter{Name: n, Test: t, TextMatches: []carddav.TextMatch{a, b}})
 					}
 				}
+			} else if n == "EMAIL" && (t == carddav.FilterAllOf || t == carddav.FilterAnyOf) {
+				// quick tier: pairs of text-matches over a reduced set, on the property that occurs twice in the
+				// card family (both text-matches must hold for ONE instance under allof)
+				var red []carddav.TextMatch
+				for _, ty := range []carddav.MatchType{"", carddav.MatchEquals} {
+					for _, neg := range []bool{false, true} {
+						for _, tx := range []string{"alice", "bob"} {
+							red = append(red, carddav.TextMatch{Text: tx, MatchType: ty, NegateCondition: neg})
+						}
+					}
+				}
+				for _, a := range red {
+					for _, b := range red {
+						out = append(out, carddav.PropFilter{Name: n, Test: t, TextMatches: []carddav.TextMatch{a, b}})
+					}
+				}
 			}
 		}
 	}
@@ -483,7 +499,7 @@ func c07Run(r *engine.Run) {
 	pfs := c07PropFilters(full)
 	r.Rule = "Match: every query = outer test{'',anyof,allof,bogus} x 0..2 prop-filters, each name{FN,EMAIL,X-NONE} x [is-not-defined | inner test x 0..1 (thorough 0..2) text-matches over 7 texts (two with leading or trailing white space) x 6 match types (incl. bogus) x negate], on every card with FN/EMAIL each absent or one of 4 values (25 cards); pairs of prop-filters over a strided subset (quick) / denser subset (thorough). Filter: every ordered list of 0..4 cards from a 4-card pool x Limit{-1..5} x DataRequest{none,AllProp, every subset of {FN,EMAIL,X-NONE}} x representative queries. Non-trivial = the query's verdict differs across cards (Match) / at least one card matches (Filter); distinct by (query, card)."
 	r.Explanation = "carddav.Match and carddav.Filter run on every generated case and are compared with a three-valued RFC 6352 reference (unknown enumeration => error required unless the verdict is the same either way); arguments are deep-compared before/after"
-	r.Assumptions = []string{"one instance per property (multi-instance is a code TODO outside the statement)", "param-filters are not part of matching in the statement"}
+	r.Assumptions = []string{"param-filters are not part of matching in the statement"}
 	r.Extra["prop_filters"] = len(pfs)
 	r.Extra["cards"] = len(cards)
 
